@@ -3,6 +3,7 @@ package main
 import (
 	"fmt"
 	"go/ast"
+	"go/constant"
 	"go/types"
 	"sort"
 	"strings"
@@ -178,6 +179,56 @@ func checkPooledBufferReset(p *Prog, r *Result, rel, rule string) int {
 			ok2, _ := g.MustPass(b, idx, g.Exit, isReset, nil)
 			r.Check(ok2, rule, key, as.Pos(), "Reset() on every path before it goes back to the pool",
 				fmt.Sprintf("%s comes from a sync.Pool and is used without being emptied first, and some path returns it without Reset(): whatever an earlier user left in it (a document whose write failed half way) is prepended to the next one", id.Name))
+			return true
+		})
+	}
+	return n
+}
+
+// R15k: text that goes into the JSON document is produced by encoding/json. Go's own quoting (strconv.Quote and its
+// relatives, the %q verb) is not JSON: it writes \x1b, \a and \x7f, which no JSON parser accepts, so a tree holding a raw
+// control character in a literal, a quoted string, a here-document or a comment would fail to encode — or to decode
+// again. Package typedjson calls none of them.
+func checkNoGoQuoting(p *Prog, r *Result, rule string) int {
+	pkg := p.Pkg("syntax/typedjson")
+	info := pkg.TypesInfo
+	n := 0
+	for _, fd := range p.AllFuncDecls("syntax/typedjson") {
+		if fd.Body == nil || strings.HasSuffix(p.Position(fd.Pos()), "_test.go") {
+			continue
+		}
+		k := 0
+		ast.Inspect(fd.Body, func(m ast.Node) bool {
+			c, ok := m.(*ast.CallExpr)
+			if !ok {
+				return true
+			}
+			callee := calleeOf(info, c)
+			if callee == nil || callee.Pkg() == nil {
+				return true
+			}
+			bad := ""
+			switch {
+			case callee.Pkg().Path() == "strconv" && (strings.HasPrefix(callee.Name(), "Quote") || strings.HasPrefix(callee.Name(), "AppendQuote")):
+				bad = "strconv." + callee.Name()
+			case callee.Pkg().Path() == "fmt":
+				for _, a := range c.Args {
+					if tv, ok := info.Types[a]; ok && tv.Value != nil && tv.Value.Kind() == constant.String && strings.Contains(constant.StringVal(tv.Value), "%q") {
+						// %q in an error message is fine; only a value that is returned as JSON text matters
+						if strings.HasPrefix(callee.Name(), "Errorf") || strings.HasPrefix(callee.Name(), "Fprint") {
+							continue
+						}
+						bad = "fmt." + callee.Name() + " with %q"
+					}
+				}
+			}
+			if bad == "" {
+				return true
+			}
+			k++
+			n++
+			r.Bad(rule, fmt.Sprintf("%s#Go quoting %d (%s)", funcKey("syntax/typedjson", fd), k, bad), c.Pos(),
+				bad+" writes Go syntax, not JSON: a control character comes out as \\x1b or \\a, which is not a JSON escape — Encode fails on a valid tree (a raw ESC in a literal or a comment), or writes a document Decode refuses")
 			return true
 		})
 	}
